@@ -78,6 +78,13 @@ struct Req {
     /// call read ahead must be there for the next one, whichever thread makes it (seed C17-d1: a per-thread buffer).
     /// The model and the CLI streams ignore the field.
     threads: bool,
+    /// `tty=1`: standard input of the in-process case is the slave side of a pseudo-terminal in canonical mode;
+    /// every chunk is one write to the master followed by the end-of-file character (which hands an unfinished
+    /// line to the reader as it is), so each chunk arrives as `read(2)`s of its own exactly like on a pipe, and a
+    /// final end-of-file character on an empty line is the end of input (seed C17-e2: a terminal fast path that
+    /// takes one read for one line). Only for texts without control characters other than LF / CR / TAB and with
+    /// chunks below the canonical line limit; the model and the CLI streams ignore the field.
+    tty: bool,
 }
 
 fn parse(line: &str) -> Option<Req> {
@@ -90,6 +97,7 @@ fn parse(line: &str) -> Option<Req> {
     let calls: usize = w[2].strip_prefix("calls=")?.parse().ok()?;
     let mut delay_us = 0;
     let mut threads = false;
+    let mut tty = false;
     for x in &w[3..] {
         if let Some(d) = x.strip_prefix("delay=") {
             delay_us = d.parse().ok()?;
@@ -97,11 +105,17 @@ fn parse(line: &str) -> Option<Req> {
         if *x == "threads=1" {
             threads = true;
         }
+        if *x == "tty=1" {
+            tty = true;
+        }
     }
     if calls > MAX_CALLS || chunks.iter().any(|c| c.len() > MAX_CHUNK) {
         return None;
     }
-    Some(Req { chunks, calls, delay_us, threads })
+    if tty && !tty_deliverable(&chunks) {
+        return None;
+    }
+    Some(Req { chunks, calls, delay_us, threads, tty })
 }
 
 /// A chunk: `+`-joined parts, each plain hex (`-` = empty) or a run `HH*N` (N copies of the byte HH) —
@@ -235,6 +249,88 @@ fn write_all_fd(fd: i32, mut data: &[u8]) -> bool {
 
 /// Write the chunks to `fd` one at a time, each only once the pipe is empty; `alive()` says whether
 /// the reader still exists. Does not close `fd`.
+/// What a canonical-mode terminal with every special character but end-of-file (0x04) and LF disabled delivers
+/// unchanged: no 0x04, no NUL, no other control characters than LF / CR / TAB, every chunk well below the
+/// canonical line limit (4096).
+fn tty_deliverable(chunks: &[Vec<u8>]) -> bool {
+    chunks.iter().all(|c| c.len() <= 3500 && c.iter().all(|&b| b >= 0x20 && b != 0x7f || matches!(b, b'\n' | b'\r' | b'\t')))
+}
+
+/// Opens a pseudo-terminal, makes its slave side fd 0 (canonical mode, no echo, no signals, no translations, every
+/// editing character disabled) and returns (master fd, a second fd of the slave for FIONREAD).
+fn tty_stdin() -> Option<(i32, i32)> {
+    let (mut master, mut slave) = (0i32, 0i32);
+    if unsafe { libc::openpty(&mut master, &mut slave, std::ptr::null_mut(), std::ptr::null(), std::ptr::null()) } != 0 {
+        return None;
+    }
+    let mut t: libc::termios = unsafe { std::mem::zeroed() };
+    if unsafe { libc::tcgetattr(slave, &mut t) } != 0 {
+        return None;
+    }
+    t.c_iflag = 0;
+    t.c_oflag = 0;
+    t.c_lflag = libc::ICANON;
+    for c in t.c_cc.iter_mut() {
+        *c = 0; // _POSIX_VDISABLE
+    }
+    t.c_cc[libc::VEOF] = 4;
+    t.c_cc[libc::VMIN] = 1;
+    if unsafe { libc::tcsetattr(slave, libc::TCSANOW, &t) } != 0 {
+        return None;
+    }
+    let probe = unsafe { libc::dup(slave) };
+    unsafe {
+        libc::dup2(slave, 0);
+        libc::close(slave);
+    }
+    Some((master, probe))
+}
+
+/// Feeder of the terminal case: each chunk in one write, the end-of-file character behind a chunk that does not
+/// end a line, the next chunk only when the reader has taken everything; afterwards an end-of-file character on
+/// the empty line whenever the reader has nothing to read (each one is one zero-length read: the end of input,
+/// again and again, as a terminal does it).
+fn feed_tty(master: i32, probe: i32, chunks: &[Vec<u8>]) {
+    let drained = || {
+        let mut n: libc::c_int = 0;
+        for _ in 0..200_000 {
+            if unsafe { libc::ioctl(probe, libc::FIONREAD, &mut n) } != 0 {
+                return false;
+            }
+            if n == 0 {
+                return true;
+            }
+            std::thread::sleep(Duration::from_micros(50));
+        }
+        false
+    };
+    for c in chunks {
+        if c.is_empty() {
+            continue;
+        }
+        if !drained() {
+            return;
+        }
+        // a short pause: FIONREAD says 0 as soon as the bytes are copied out, a moment before the reader is back in read(2)
+        std::thread::sleep(Duration::from_micros(300));
+        if !write_all_fd(master, c) {
+            return;
+        }
+        if c.last() != Some(&b'\n') && !write_all_fd(master, &[4]) {
+            return;
+        }
+    }
+    for _ in 0..400 {
+        if !drained() {
+            return;
+        }
+        std::thread::sleep(Duration::from_millis(2));
+        if !write_all_fd(master, &[4]) {
+            return;
+        }
+    }
+}
+
 fn feed(fd: i32, chunks: &[Vec<u8>], delay_us: u64, alive: &mut dyn FnMut() -> bool) {
     let wait_drained = |alive: &mut dyn FnMut() -> bool| -> bool {
         let mut spins = 0u32;
@@ -310,6 +406,15 @@ fn one() -> i32 {
         println!("bad-request");
         return 0;
     };
+    if req.tty {
+        let Some((master, probe)) = tty_stdin() else {
+            println!("machinery(pty)");
+            return 0;
+        };
+        let chunks = req.chunks.clone();
+        std::thread::spawn(move || feed_tty(master, probe, &chunks));
+        return one_calls(&req);
+    }
     let mut fds = [0i32; 2];
     if unsafe { libc::pipe(fds.as_mut_ptr()) } != 0 {
         println!("machinery(pipe)");
@@ -332,6 +437,11 @@ fn one() -> i32 {
         unsafe { libc::close(wfd) };
     });
 
+    one_calls(&req)
+}
+
+/// The calls of one in-process case (stdin is set up), and its answer line.
+fn one_calls(req: &Req) -> i32 {
     let arena = Arena::new(256 << 20).expect("arena");
     let prompt = Value::Str(ArenaCow::Borrowed(""));
     let mut results = Vec::new();
@@ -857,6 +967,9 @@ fn generate(args: &[String]) -> i32 {
         let mut line = request_line(&chunks, calls, delay);
         if calls >= 2 && rng.chance(1, 6) {
             line.push_str(" threads=1");
+        }
+        if tty_deliverable(&chunks) && rng.chance(1, 3) {
+            line.push_str(" tty=1");
         }
         out.line(&line);
     }
